@@ -53,8 +53,9 @@ ASSUMPTIONS = [
     "(documented tolerance of is_affine_st is 1e-10); the lost terms are added to the tolerance; the band "
     "[0.5e-10, 2e-10] is excluded as ambiguous",
     "GCP boxes always carry a CRS (the control points are stored in the CRS coordinate); GCP comparison is field-wise "
-    "(shape, CRS, control points in the box's own pixel frame, pix2wld on every pixel centre within 1e-6 px + "
-    "1e-10*|world|) because GCPGeoBox equality is by mapping identity (D14)",
+    "(shape, CRS, control points in the box's own pixel frame exactly, pix2wld on every pixel centre within 1e-6 px + "
+    "1e-10*|world|); == is demanded in addition for un-cropped boxes (value equality, D14 repaired) - a cropped box "
+    "comes back in its own pixel frame (identity pixel affine, shifted control points): same mapping, not ==",
     "boundary-only control point sets with >= 9 points (rank-deficient biquadratic fit) are used uncropped only",
     "slices always select at least one element; integer indexing (drops the dimension) is not a raster operation",
     "for how=<CRS> the requested destination grid is what the documented .odc.output_geobox(how, **kw) returns for the "
@@ -445,6 +446,10 @@ def o_roundtrip(case, T):
                 require(_gcp_fields(R) == _gcp_fields(G), "%s: control points differ: got %r.. want %r..", vname, _gcp_fields(R)[:2], _gcp_fields(G)[:2])
                 msg = gcp_points_diff(R, G, list(range(ny)), list(range(nx)), _gcp_tol(bc))
                 require(msg is None, "%s: %s", vname, msg)
+                if not bc.get("crop"):
+                    # same pixel frame, identical control points: nothing is computed, so == must hold
+                    # (value equality of GCP boxes: D14, repaired in the repository)
+                    require(R == G, "%s: recovered GCP box != original although shape, CRS and control points agree", vname)
             else:
                 from odc.geo.geobox import GeoBox
 
